@@ -721,6 +721,10 @@ class Sample:
                 muts[pos, op].append(
                     (mean(mq for mq, _ in items), mean(q for _, q in items))
                 )
+                # keep the phasing record in line with the merged evidence
+                for p in range(len(l)):
+                    if l[p] != "." and pos + p in self.phaseable:
+                        phase[pos + p] = "_" if p else op
 
         if self._indel_sites_eqs:  # long-read hack
             for pos, op in self._indel_sites:
